@@ -97,7 +97,7 @@ fn exec_guarded<P: Property>(plan: &P::Plan, st: &mut Stats) -> Option<Violation
     // test) must not take the worker down silently: it is reported as a harness
     // error class, which the driver turns into exit 2.
     std::thread::scope(|sc| {
-        let h = std::thread::Builder::new().stack_size(4 << 20).spawn_scoped(sc, || {
+        let h = std::thread::Builder::new().stack_size(2 << 20).spawn_scoped(sc, || {
             match std::panic::catch_unwind(std::panic::AssertUnwindSafe(|| P::execute(plan, st))) {
                 Ok(v) => v,
                 Err(_) => {
@@ -162,7 +162,16 @@ pub fn worker<P: Property>(tier: Tier, seed: u64, start: u64, step: u64, end: u6
     while i < end {
         say(format!("BEGIN {i}"));
         let mut rng = Rng::new(run_seed(seed, P::ID, i));
-        let plan = P::generate(&mut rng, tier);
+        let plan = match std::panic::catch_unwind(std::panic::AssertUnwindSafe(|| P::generate(&mut rng, tier))) {
+            Ok(p) => p,
+            Err(_) => {
+                // a bug in the harness's own generator: reported as a harness error (exit 2)
+                wo.violations.push(FoundViolation { run: i as i64, class: "HARNESS-PANIC".into(), detail: format!("plan generator panicked: {}", crate::exec::take_panic()), plan: Value::Null });
+                wo.runs_done += 1;
+                i += step;
+                continue;
+            }
+        };
         wo.stats.hist = 0;
         let v = exec_guarded::<P>(&plan, &mut wo.stats);
         let hist = wo.stats.hist;
